@@ -2,6 +2,7 @@
 use std::io::{BufRead, Write};
 
 mod bp;
+mod cand;
 mod cc;
 mod fuzz;
 mod memhelper;
@@ -19,6 +20,9 @@ fn main() {
         let res = match mode.as_str() {
             "cc" => cc::run(&toks),
             "bp" => bp::run(&toks),
+            "cand" => cand::run_cand(&toks),
+            "companion" => cand::run_companion(&toks),
+            "fat" => cand::run_fat(&toks),
             "sl-dump" => sl::run_dump(&toks),
             "sl-look" => sl::run_look(&toks),
             "codeid" => fuzz::run_codeid(&toks),
